@@ -219,6 +219,19 @@ func c14payload(s *c14state, choose verifseam.Chooser) (signP, verifyP string, f
 	if len(lv.payloads) == 1 {
 		verifyP = lv.payloads[0]
 	}
+	// the debug option only logs: a signature made with it verifies without it, and one made without it verifies with it
+	if err := signature.Verify(sigCtx, sig, k.Verifier, sigWithInv(cs, s.Repo), signature.WithEnv(venv)); err != nil {
+		return signP, verifyP, sig.SignedFields, true, "signed with WithDebugSigning, verified without: " + err.Error()
+	}
+	if choose == nil && len(s.Trail) <= 1 {
+		plain, err := signature.Sign(sigCtx, k.Sign, sigWithInv(cs, s.Repo), signature.WithEnv(penv))
+		if err == nil {
+			err = signature.Verify(sigCtx, plain, k.Verifier, sigWithInv(cs, s.Repo), signature.WithEnv(venv), signature.WithLogger(&payloadLogger{}), signature.WithDebugSigning(true))
+		}
+		if err != nil {
+			return signP, verifyP, sig.SignedFields, true, "signed without WithDebugSigning, verified with: " + err.Error()
+		}
+	}
 	return signP, verifyP, sig.SignedFields, true, ""
 }
 
@@ -561,7 +574,7 @@ func init() {
 	register(&report.Check{
 		ID:      "C14",
 		Workers: 1,
-		Rule: "explicit-state BFS (depth 2 with the EdDSA key, depth 1 with ES512 / PS512 / ES256-signer) over mutations of (step JSON, pipeline env, repository URL, algorithm) from the five initial states of C01: " +
+		Rule: "explicit-state BFS (depth 2 with the EdDSA key, depth 1 with ES512 / PS512 / ES256-signer) over mutations of (step JSON, pipeline env, repository URL, algorithm) from the seven initial states of C01 (payloads logged through WithDebugSigning; every state also signed with and verified without the option, and the other way round): " +
 			"all step mutations of C01 (single-point changes, re-orderings, re-spellings, key/value and item/item boundary shifts) plus pipeline-env changes (incl. variables named like the signed fields command / env / plugins / matrix / repository_url), name/value boundary shifts, moving a variable between step env and " +
 			"pipeline env (also as a step env entry literally named env::NAME), command/repository-URL boundary shifts and algorithm changes. The payload bytes logged by Sign and by Verify are recorded per state; states are " +
 			"classed by the harness's canonical semantic form + algorithm name: within a class all payloads must be byte-identical and equal between Sign and Verify, across classes pairwise distinct (hash map keyed by payload). " +
